@@ -27,6 +27,9 @@ type C04Episode struct {
 	Begin         []string `json:"begin"` // per attempt: ok fail werr silent close
 	End           []string `json:"end"`
 	Cancel        string   `json:"cancel"` // "" | before-begin | during-business | during-second
+	// SlowEnd: the coordinator takes 5 s for its answers to end requests (a
+	// cancellation "during-second" then falls between request and answer)
+	SlowEnd bool `json:"slow_end,omitempty"`
 	// Nested: the business callback opens a scope of its own on the context
 	// it was given (default propagation: it joins); "join-err": that inner
 	// callback fails and the outer one carries on regardless
@@ -78,6 +81,7 @@ func genC04(seed uint64, tier string) *C04Plan {
 		if g.Prob(0.15) {
 			e.Cancel = simkit.Pick(g, []string{"before-begin", "during-business", "during-second"})
 		}
+		e.SlowEnd = g.Prob(0.3)
 		if g.Prob(0.2) {
 			e.Nested = simkit.Pick(g, []string{"join-ok", "join-ok", "join-err"})
 		}
@@ -188,6 +192,9 @@ func runC04(t *testing.T, seed uint64, planJSON []byte, tier string) (res *Resul
 			sim.Fault("tc-script-" + act)
 			switch act {
 			case "ok":
+				if st.ep.SlowEnd && m.Code != simtc.TGlobalBegin {
+					tc.Rules = append(tc.Rules, simtc.Rule{Code: m.Code, Nth: tc.CountOf(m.Code) + 1, Action: simtc.ActSlow})
+				}
 				return false
 			case "fail":
 				resp := &simtc.Msg{Code: simtc.ResultCodeFor(m.Code), Result: simtc.ResultFailed, Message: "scripted failure", ExCode: 1}
